@@ -42,12 +42,18 @@ class Oracle:
             self.build()
             self.proc = subprocess.Popen([self.exe()], stdin=subprocess.PIPE, stdout=subprocess.PIPE, text=True, bufsize=1)
 
-    def ask(self, op, *args):
+    def ask(self, op, *args, timeout=20.0):
+        import select
         with self.lock:
             self.start()
             self.n += 1
             line = '\t'.join([str(self.n), op] + list(args))
             self.proc.stdin.write(line + '\n'); self.proc.stdin.flush()
+            ready, _, _ = select.select([self.proc.stdout], [], [], timeout)
+            if not ready:
+                # the native code did not answer: non-termination (or far beyond any reasonable time bound)
+                self.proc.kill(); self.proc.wait(); self.proc = None
+                return ('timeout', None)
             out = self.proc.stdout.readline()
             if not out:
                 self.proc = None
